@@ -12,7 +12,7 @@ for pid in sorted( d for d in os.listdir( root ) if re.match( r'C\d\d$', d )):
         key = '%s/%s' % ( pid, k )
         if key in labels or not os.path.isfile( os.path.join( od, k, 'patch.diff' )):
             continue
-        n = max( [ 17 ] + [ int( u.split( '-' )[1] ) for u in used if u.startswith( pid + '-' ) and u.split( '-' )[1].isdigit() ] ) + 1
+        n = max( [ 19 ] + [ int( u.split( '-' )[1] ) for u in used if u.startswith( pid + '-' ) and u.split( '-' )[1].isdigit() ] ) + 1
         labels[key] = '%s-%d' % ( pid, n ); used.add( labels[key] )
 json.dump( labels, open( lp, 'w' ), indent=1 )
 for k, v in sorted( labels.items()):
